@@ -416,3 +416,53 @@ def sibling_family():
                 f = Func("f", [(INT, "p")], FLOAT, Block(body), True)
                 out.append(("sibling:%s:%s:%s:%s" % (k1, k2, t1, t2), Module(funcs=[f])))
     return out
+
+
+def cross_function_family():
+    """directed: one name used by two *functions* of a module in every pair of roles (parameter, function-level local,
+    loop-header variable, block local), either function first; the second function calls the first and reads its own `n`
+    again after the call.  Functions are disjoint scopes: each use binds to its own function's declaration.
+    (name, lang.Module, [(function, inputs)])"""
+    from ..lang import mk_bin, Call
+    out = []
+    roles = ("param", "local", "forhdr", "blocklocal")
+
+    def body(role, ty, pname, callee):
+        P = Var(pname, INT)
+        n = Var("n", INT if role in ("param", "forhdr") else ty)
+        r = Var("r", FLOAT)
+        add = lambda e: ExprStmt(Assign("=", r, mk_bin("+", r, e)))
+        if role == "param":
+            st = [Decl(FLOAT, "r", mk_bin("+", mk_bin("*", n, FloatLit(2.0)), FloatLit(1.0)))]
+        elif role == "local":
+            st = [Decl(ty, "n", mk_bin("+", P, IntLit(3)) if ty == INT else mk_bin("+", P, FloatLit(3.5))),
+                  Decl(FLOAT, "r", mk_bin("+", mk_bin("*", n, FloatLit(2.0)), FloatLit(1.0)))]
+        elif role == "forhdr":
+            st = [Decl(FLOAT, "r", FloatLit(0.5)),
+                  For(Decl(INT, "n", IntLit(0)), Bin("<", n, IntLit(3), INT), Affix("++", True, n), Block([add(mk_bin("+", n, P))]))]
+        else:
+            st = [Decl(FLOAT, "r", FloatLit(0.25)),
+                  Block([Decl(ty, "n", mk_bin("+", P, IntLit(1)) if ty == INT else mk_bin("+", P, FloatLit(1.5))), add(mk_bin("*", n, FloatLit(2.0)))])]
+        if callee is not None:
+            st.append(add(Call(callee.name, [mk_bin("+", P, IntLit(10))], FLOAT, callee)))
+            if role in ("param", "local"):
+                st.append(add(mk_bin("*", n, FloatLit(100.0))))       # own `n` again, after the call
+                st.append(ExprStmt(Assign("=", n, mk_bin("+", n, IntLit(1) if n.ty == INT else FloatLit(1.0)))))
+                st.append(add(n))
+        st.append(Return(r))
+        return st
+
+    k = 0
+    for r1 in roles:
+        for r2 in roles:
+            for order in ("callee-first", "caller-first"):
+                ty1, ty2 = ((INT, FLOAT), (FLOAT, INT), (INT, INT), (FLOAT, FLOAT))[k % 4]
+                k += 1
+                pn1 = "n" if r1 == "param" else "p"
+                pn2 = "n" if r2 == "param" else "q"
+                g = Func("g", [(INT, pn1)], FLOAT, Block(body(r1, ty1, pn1, None)), True)
+                f = Func("f", [(INT, pn2)], FLOAT, Block(body(r2, ty2, pn2, g)), True)
+                funcs = [g, f] if order == "callee-first" else [f, g]
+                calls = [("g", [({pn1: v}, {}) for v in (0, 4)]), ("f", [({pn2: v}, {}) for v in (0, 1, 5)])]
+                out.append(("crossfn:%s:%s:%s" % (r1, r2, order), Module(funcs=funcs), calls))
+    return out
